@@ -2,7 +2,7 @@
    model has, and a non-vacuity example. *)
 From Coq Require Import String Ascii ZArith NArith List Bool Lia Arith.
 Import ListNotations.
-From GMS Require Import Sys.C44SysVarsBase gen.C44Vars Sys.C44SysVars Sys.C44SysVarsProofs.
+From GMS Require Import Sys.C44SysVarsBase gen.C44Vars Sys.C44SysVars Sys.C44SysVarsProofs Sys.C44SysVarsStmt.
 Open Scope Z_scope.
 
 (* ---------- facts decided on the generated registry ---------- *)
@@ -154,3 +154,46 @@ Lemma demo :
   snd (step vars st (SetSession 1 "max_connections" (GI KInt8 9))) = Rejected /\
   snd (step vars st (SetGlobal 1 "insert_id" (GI KInt8 9))) = Rejected.
 Proof. cbv zeta. repeat split; vm_compute; reflexivity. Qed.
+
+(* ---------- whole statements over the generated registry ---------- *)
+Definition x1 : xstate := fst (exec_stmt vars (xinit vars) SNew).
+
+(* several assignments are NOT atomic when the failure is found while running: the first assignment stays *)
+Lemma multi_set_not_atomic :
+  let r := exec_stmt vars x1 (SSet 0 [(TgSession false "wait_timeout", SrcVal (GI KInt8 5));
+                                      (TgSession false "auto_increment_increment", SrcVal (GI KInt8 0));
+                                      (TgSession false "sql_log_bin", SrcVal (GI KInt8 1))]) in
+  snd r = Rejected /\
+  read_bare (base (fst r)) 0 "wait_timeout" = RVal (GI KInt64 5) /\
+  read_bare (base (fst r)) 0 "auto_increment_increment" = RVal (GI KInt64 1) /\
+  read_bare (base (fst r)) 0 "sql_log_bin" = RVal (GI KInt8 0).
+Proof. cbv zeta. repeat split; vm_compute; reflexivity. Qed.
+
+(* ... but atomic when the planbuilder finds it (an invalid string literal, an unknown name): nothing runs *)
+Lemma multi_set_build_failure_atomic :
+  let r := exec_stmt vars x1 (SSet 0 [(TgSession false "wait_timeout", SrcVal (GI KInt8 5));
+                                      (TgSession false "wait_timeout", SrcVal (GS "abc"))]) in
+  snd r = Rejected /\ read_bare (base (fst r)) 0 "wait_timeout" = RVal (GI KInt64 28800).
+Proof. cbv zeta. split; vm_compute; reflexivity. Qed.
+
+(* SET PERSIST of a read-only variable fails, yet the value has been persisted *)
+Lemma persist_rejected_but_persisted :
+  let r := exec_stmt vars x1 (SSet 0 [(TgPersist false "version", SrcVal (GS "y"))]) in
+  snd r = Rejected /\ pers (fst r) 0 "version" = GS "y" /\ get_global (base (fst r)) "version" = GS "8.0.31".
+Proof. cbv zeta. repeat split; vm_compute; reflexivity. Qed.
+
+(* SET SESSION x = DEFAULT gives the compiled default, not the current global value *)
+Lemma session_default_is_compiled_default :
+  let xs := xrun vars x1 [SSet 0 [(TgGlobal "wait_timeout", SrcVal (GI KInt8 77))];
+                          SSet 0 [(TgSession false "wait_timeout", SrcVal (GI KInt8 5))];
+                          SSet 0 [(TgSession false "wait_timeout", SrcDefault)]] in
+  read_bare (base xs) 0 "wait_timeout" = RVal (GI KInt64 28800) /\ get_global (base xs) "wait_timeout" = GI KInt64 77.
+Proof. cbv zeta. split; vm_compute; reflexivity. Qed.
+
+(* a SET-typed variable: names in any case and order, shown back in declaration order; copied to a user variable as text *)
+Lemma sql_mode_roundtrip :
+  let xs := xrun vars x1 [SSet 0 [(TgSession false "sql_mode", SrcVal (GS "ansi_quotes,,ANSI ,"));
+                                  (TgUser "m", SrcBare "sql_mode")]] in
+  shown vars "sql_mode" (match read_bare (base xs) 0 "sql_mode" with RVal v => v | _ => GNil end) = GS "ANSI_QUOTES,ANSI" /\
+  get_user (base xs) 0 "m" = RVal (GS "ANSI_QUOTES,ANSI").
+Proof. cbv zeta. split; vm_compute; reflexivity. Qed.
